@@ -161,9 +161,12 @@ func (p *parser) parseBinaryExpr(left Node) Node {
 	if binaryExp.Right == nil {
 		return nil // previous error
 	}
-	if expType == EMPTY_ARRAY {
+	if expType == EMPTY_ARRAY && binaryExp.Op == OP_PLUS {
 		binaryExp.T = binaryExp.Right.Type() // array concatenation e.g. [] + [1 2]
 	}
+	// The result of an expression is not a literal: it cannot be coerced into
+	// a different composite type, see Type.Fixed.
+	binaryExp.T = fixedType(binaryExp.T)
 	p.validateBinaryType(binaryExp)
 	if p.isWSS() {
 		p.formatting.recordWSS(binaryExp)
@@ -220,6 +223,9 @@ func (p *parser) parseIndexOrSliceExpr(left Node, allowSlice bool) Node {
 	if leftType == STRING {
 		t = STRING_TYPE
 	}
+	if t != nil {
+		t = fixedType(t)
+	}
 	return &IndexExpression{token: tok, Left: left, Index: index, T: t}
 }
 
@@ -265,7 +271,7 @@ func (p *parser) parseSlice(tok *lexer.Token, left, start Node) Node {
 		return nil
 	}
 
-	return &SliceExpression{token: tok, Left: left, Start: start, End: end, T: left.Type()}
+	return &SliceExpression{token: tok, Left: left, Start: start, End: end, T: fixedType(left.Type())}
 }
 
 func (p *parser) parseDotExpr(left Node) Node {
@@ -290,6 +296,9 @@ func (p *parser) parseDotExpr(left Node) Node {
 		return nil
 	}
 	expr := &DotExpression{token: tok, Left: left, T: left.Type().Sub, Key: key.Literal}
+	if expr.T != nil {
+		expr.T = fixedType(expr.T)
+	}
 	p.advance() // advance past key IDENT
 	return expr
 }
@@ -325,7 +334,7 @@ func (p *parser) parseTypeAssertion(left Node) Node {
 	if left.Type() != ANY_TYPE {
 		p.appendErrorForToken("value of type assertion must be of type any, not "+left.Type().String(), tok)
 	}
-	return &TypeAssertion{T: t, token: tok, Left: left}
+	return &TypeAssertion{T: fixedType(t), token: tok, Left: left}
 }
 
 func isBinaryOp(tt lexer.TokenType) bool {
